@@ -50,6 +50,28 @@ theorem fact_api_shape : releaseDefaultsToSts = true ∧ listDefaultsToSts = tru
     releasable entry, each executed in order —, `convert`, the paging calls of `ListIPs`) was recognised in the source -/
 theorem fact_handler_shapes : shapeErrors = [] := by decide
 
+/-- inside both handlers `util.GetAppTypePrefix` is applied to the entry's / the query's app type itself — one call each,
+    no helper and no normalising wrapper (trimming, case folding, …) in between -/
+theorem fact_prefix_args : releasePrefixArgs = ["temp.AppType"] ∧ listPrefixArgs = ["appType"] := by decide
+
+/-- handler-level prefix resolution, made explicit: given the facts above (`fact_api_shape`, `fact_handler_shapes`,
+    `fact_prefix_args`), the prefix `ReleaseIPs` and `ListIPs` derive from an app type is exactly
+    `if appType = "" then sts_ else GetAppTypePrefix appType` — nothing else happens to the app type on the way, so the
+    keys they build are `genKey` of that prefix and the entry's own fields -/
+theorem handler_prefix_resolution (appType : Str) (e : Entry) (ns app pod pool : Str) :
+    apiPrefixWith releaseDefaultsToSts appType = (if appType = [] then stsPrefix else getAppTypePrefix appType) ∧
+    apiPrefixWith listDefaultsToSts appType = (if appType = [] then stsPrefix else getAppTypePrefix appType) ∧
+    releaseKey e = genKey (if e.appType = [] then stsPrefix else getAppTypePrefix e.appType) e.ns e.app e.pod e.pool ∧
+    listKey appType ns app pod pool =
+      genKey (if appType = [] then stsPrefix else getAppTypePrefix appType) ns app pod pool := by
+  simp [apiPrefixWith, releaseKey, releaseKeyWith, listKey, newKeyObj, fact_api_shape.1, fact_api_shape.2.1]
+
+/-- non-vacuity / the case the resolution must not mangle: a kind ending in `s` lists as `redis` and resolves back to
+    `redis_` (not `redi_`) -/
+example : getAppTypePrefix "Redis".toList = "redis_".toList ∧ getAppType "redis_".toList = "redis".toList ∧
+    apiPrefixWith releaseDefaultsToSts "redis".toList = "redis_".toList ∧
+    releaseKey (convert 1 "redis_ns1_cache_cache-0".toList) = "redis_ns1_cache_cache-0".toList := by decide
+
 /-- the constants of the key grammar -/
 theorem fact_constants :
     poolPrefix = "pool__".toList ∧ dpPrefix = "dp_".toList ∧ stsPrefix = "sts_".toList ∧
